@@ -134,12 +134,21 @@ PROBE_CMD(fieldprops) {
     out.end_arr();
     out.kv_s("default_region", fp.default_region());
 
+    // the arrays are asked for in the order of the request (ints before doubles if ints_first)
+    const bool ints_first = jbool(req, "ints_first", false);
+    if (ints_first) {
+        out.key("ints").arr();
+        for (const auto& kw : inames) dump_int(out, fp, kw, want_global);
+        out.end_arr();
+    }
     out.key("doubles").arr();
     for (const auto& kw : dnames) dump_double(out, fp, kw, want_global);
     out.end_arr();
-    out.key("ints").arr();
-    for (const auto& kw : inames) dump_int(out, fp, kw, want_global);
-    out.end_arr();
+    if (!ints_first) {
+        out.key("ints").arr();
+        for (const auto& kw : inames) dump_int(out, fp, kw, want_global);
+        out.end_arr();
+    }
 
     guarded(out, "porv", [&](JW& o) {
         const auto v = fp.porv(false);
